@@ -404,6 +404,14 @@ macro_rules! perp_world {
                                 Err(e) => format!("err {}", crate::mkt::err_tag(&e)),
                             })
                         }
+                        "swap" => {
+                            let il = b(0)?; let amt = n(1)?;
+                            let pr = prices_at(2)?;
+                            Some(match self.atomic(|m, _| m.swap(il, amt, pr)?.execute()) {
+                                Ok(r) => format!("ok {} {} {} {} {}", r.token_out_amount(), r.price_impact(), r.price_impact_amount(), r.token_in_fees().fee_amount_for_pool(), r.token_in_fees().fee_amount_for_receiver()),
+                                Err(e) => format!("err {}", crate::mkt::err_tag(&e)),
+                            })
+                        }
                         "pv" => {
                             let kind = match *a.first()? { "0" => PnlFactorKind::MaxAfterDeposit, "1" => PnlFactorKind::MaxAfterWithdrawal, "2" => PnlFactorKind::MaxForTrader, "3" => PnlFactorKind::ForAdl, "4" => PnlFactorKind::MinAfterAdl, _ => return None };
                             let mx = b(1)?;
@@ -561,15 +569,34 @@ macro_rules! perp_world {
                     else if rem < &size * factor / &u { "leverage" } else { "none" })
             }
 
+            /// whole-market oracle (C13 on the market): the total-borrowing pool of each side equals
+            /// Σ ⌊size · borrowing-factor snapshot / UNIT⌋ over that side's positions, recomputed here from the positions
+            pub fn check_total_borrowing(s: &Session) -> Option<String> {
+                for il in [true, false] {
+                    let mut sum = BigInt::from(0);
+                    for p in s.ps.values().filter(|p| p.is_long == il) { sum += bu(p.size_in_usd) * bu(p.borrowing_factor) / bu(UNIT); }
+                    let tb = if il { s.m.total_borrowing.long_amount } else { s.m.total_borrowing.short_amount };
+                    if bu(tb) != sum { return Some(format!("total borrowing of side long={il} is {tb} but the positions sum to {sum}")); }
+                }
+                None
+            }
+
+            /// the ten indices that may only grow: cumulative borrowing factors, funding and claimable funding amounts per size
+            pub fn indices(s: &Session) -> Vec<BigInt> {
+                let m = &s.m;
+                [m.borrowing_factor, m.funding_amount_per_size.0, m.funding_amount_per_size.1, m.claimable_funding_amount_per_size.0, m.claimable_funding_amount_per_size.1]
+                    .iter().flat_map(|q| [bu(q.long_amount), bu(q.short_amount)]).collect()
+            }
+
             // ------------------------------------------------------------------ history generator
             /// produces the next request of a random history relative to the current session state
             /// bisection on the collateral of a fresh position towards the smallest amount an increase accepts
             pub struct Bisect { pub pid: u64, pub il: bool, pub cl: bool, pub size: $U, pub lo: $U, pub hi: $U, pub cur: $U, pub steps: u32, pub pr: String, pub first: bool }
-            pub struct HistGen { pub sid: String, pub left: u32, pub px: u64, pub next_pid: u64, pub stage: u32, pub pending: Vec<String>, pub roundtrip: bool, pub mcf: $U, pub bisect: Option<Bisect> }
+            pub struct HistGen { pub long_hist: bool, pub sid: String, pub left: u32, pub px: u64, pub next_pid: u64, pub stage: u32, pub pending: Vec<String>, pub roundtrip: bool, pub mcf: $U, pub bisect: Option<Bisect> }
 
             impl HistGen {
                 pub fn new(r: &mut Rng, sid: String, roundtrip: bool) -> Self {
-                    HistGen { sid, left: 10 + r.below(40) as u32, px: 50 + r.below(200), next_pid: 0, stage: 0, pending: vec![], roundtrip, mcf: 0, bisect: None }
+                    HistGen { long_hist: false, sid, left: 10 + r.below(40) as u32, px: 50 + r.below(200), next_pid: 0, stage: 0, pending: vec![], roundtrip, mcf: 0, bisect: None }
                 }
 
                 pub fn price_str(&self, r: &mut Rng) -> String {
@@ -703,7 +730,8 @@ macro_rules! perp_world {
                                     format!("perp dep {sid} {l} {sh} {pr}") }
                                 1 => { let amt = match r.below(4) { 0 => supply, 1 => supply / 2, 2 => supply / 1000 * r.below(1000) as $U, _ => r.below(1_000_000) as $U };
                                     format!("perp wdr {sid} {amt} {pr}") }
-                                _ => format!("perp pv {sid} {} {} {pr}", r.below(5), r.below(2)),
+                                _ => { let v = (*r.pick(&[0u64, 1_000, 50_000_000, 30_000_000_000]) + r.below(1000)) as $U; let il = r.chance(1, 2);
+                                    format!("perp swap {sid} {} {} {pr}", il as u8, if il { v / self.px.max(1) as $U } else { v }) }
                             })
                         }
                         _ => {
@@ -790,6 +818,8 @@ pub fn run_bin(prop: &str) {
     // context for C09 / C10
     let mut after_inc: Option<(String, String, String)> = None; // (sid, pid, prices)
     let mut after_dec: Option<(String, String, String)> = None;
+    let whole = prop == "WHOLE";
+    let mut prev_idx: HashMap<String, Vec<BigInt>> = HashMap::new();
     let mut last_chk_liq: HashMap<(String, String, String), String> = HashMap::new();
     let mut last_inc: HashMap<(String, String), (String, BigInt, BigInt)> = HashMap::new(); // (sid,pid) -> (prices, collateral in, claimable funding value credited by the increase)
     loop {
@@ -800,6 +830,8 @@ pub fn run_bin(prop: &str) {
                 let sid = format!("h{}x{}", cli.seed, hist_no);
                 let rt = prop == "C10";
                 gen = Some(if r.chance(2, 3) { AnyGen::A(w64::HistGen::new(&mut r, sid, rt)) } else { AnyGen::B(w128::HistGen::new(&mut r, sid, rt)) });
+                // whole-market histories: up to 200 operations
+                if prop == "WHOLE" { let n = 20 + r.below(181) as u32; match gen.as_mut().unwrap() { AnyGen::A(g) => { g.left = n; g.long_hist = true; } AnyGen::B(g) => { g.left = n; g.long_hist = true; } } }
             }
             let nx = match gen.as_mut().unwrap() { AnyGen::A(g) => g.next(&mut r, &db64), AnyGen::B(g) => g.next(&mut r, &db128) };
             match nx { Some(q) => { produced += 1; q } None => {
@@ -837,10 +869,10 @@ pub fn run_bin(prop: &str) {
         let ok = rt[0] == "ok";
         out.stat(&format!("{op}.{}", if ok { "ok".to_string() } else { head.replace(' ', "_") }));
         if op == "new" && ok { track.insert(sid.clone(), Track { cfg: t[5..].iter().map(|x| x.to_string()).collect(), ..Default::default() }); }
-        let mut nt = ok && matches!(op, "inc" | "dec" | "ubor" | "ufund" | "dep" | "wdr" | "pv");
+        let mut nt = ok && matches!(op, "inc" | "dec" | "ubor" | "ufund" | "dep" | "wdr" | "pv" | "swap");
         if resp != "bad-op" && resp != "panic" {
             // ---------------- C07: after EVERY operation (successful or failed)
-            if prop == "C07" {
+            if prop == "C07" || whole {
                 let f = if is64 { db64.get(&sid).and_then(w64::check_c07) } else { db128.get(&sid).and_then(w128::check_c07) };
                 if let Some(w) = f { out.oracle_fail(&w, &req); }
                 if op == "dec" && ok {
@@ -858,7 +890,7 @@ pub fn run_bin(prop: &str) {
                 }
             }
             // ---------------- C08: token ledger + funding residual
-            if prop == "C08" {
+            if prop == "C08" || whole {
                 let l1 = if is64 { db64.get(&sid).map(|s| w64::ledger(&s.m)) } else { db128.get(&sid).map(|s| w128::ledger(&s.m)) }.unwrap_or_default();
                 let tr = track.entry(sid.clone()).or_default();
                 match op {
@@ -901,6 +933,12 @@ pub fn run_bin(prop: &str) {
                         let exp = [&l0[0] + bi(t[3]), &l0[1] + bi(t[4])];
                         if l1 != exp { out.oracle_fail(&format!("deposit: accounted holdings changed by {:?} instead of the tokens in", [&l1[0] - &l0[0], &l1[1] - &l0[1]]), &req); }
                     }
+                    "swap" if ok => {
+                        // token in arrives, token out leaves; fees and impact stay inside
+                        let k = if t[3] == "1" { 0 } else { 1 };
+                        let mut exp = l0.clone(); exp[k] += bi(t[4]); exp[1 - k] -= bi(rt[1]);
+                        if l1 != exp { out.oracle_fail(&format!("swap: accounted holdings changed by {:?} instead of +in / -out", [&l1[0] - &l0[0], &l1[1] - &l0[1]]), &req); }
+                    }
                     "wdr" if ok => {
                         let exp = [&l0[0] - bi(rt[1]), &l0[1] - bi(rt[2])];
                         if l1 != exp { out.oracle_fail(&format!("withdrawal: accounted holdings changed by {:?} instead of the tokens out", [&l1[0] - &l0[0], &l1[1] - &l0[1]]), &req); }
@@ -921,6 +959,20 @@ pub fn run_bin(prop: &str) {
                         }
                     }
                 }
+            }
+            // ---------------- whole-market histories: C13 on the market and C12/C13 monotonicity after EVERY operation
+            if whole {
+                let f = if is64 { db64.get(&sid).and_then(w64::check_total_borrowing) } else { db128.get(&sid).and_then(w128::check_total_borrowing) };
+                if let Some(w) = f { out.oracle_fail(&w, &req); }
+                let idx = if is64 { db64.get(&sid).map(w64::indices) } else { db128.get(&sid).map(w128::indices) }.unwrap_or_default();
+                if !matches!(op, "new" | "setpool") {
+                    if let Some(prev) = prev_idx.get(&sid) { if prev.len() == idx.len() && prev.iter().zip(idx.iter()).any(|(a, b)| b < a) {
+                        out.oracle_fail("an index (cumulative borrowing factor / funding amount per size / claimable funding amount per size) decreased", &req); } }
+                    if prev_idx.get(&sid).map(|p| *p != idx).unwrap_or(false) { out.stat("whole.index_grew"); }
+                }
+                prev_idx.insert(sid.clone(), idx);
+                if prev_idx.len() > 64 { let keep = sid.clone(); prev_idx.retain(|k, _| *k == keep); }
+                out.stat("whole.steps_checked");
             }
             // ---------------- C09: health after increase/decrease, liquidation guard
             // The verdicts come from `health` (first principles, exact integers), NOT from the implementation's
